@@ -46,4 +46,28 @@ BarycentersOK(S, npos, epos) ==
   IN /\ {epos[k][1] : k \in DOMAIN epos} = {e \in EdgeSet(S) : S.e2n[e] # {}}
      /\ \A k \in DOMAIN epos : LET e == epos[k][1] IN
            epos[k][4] /\ epos[k][2] = SumSet(X, S.e2n[e]) /\ epos[k][3] = SumSet(Y, S.e2n[e])
+\* Bipartite drawing (growth X02).  nodes / ids: sequences; mem[k]: members of edge ids[k]; mo: None or
+\* the largest order whose incidences are drawn.  Node markers in node order; one marker per edge that
+\* has members (an edge without members may or may not get one); one line per (node, edge) incidence.
+BipOrd(memk) == Cardinality(Range(memk)) - 1
+BipMax(mem, mo) == IF mo = None THEN MaxOf({BipOrd(mem[k]) : k \in DOMAIN mem} \cup {0}) ELSE mo
+BipMarkersOK(nodes, ids, members(_), markers, emarkers) ==
+  /\ markers = nodes
+  /\ NoDup(emarkers) /\ Range(emarkers) \subseteq Range(ids)
+  /\ {ids[k] : k \in {m \in DOMAIN ids : members(m) # {}}} \subseteq Range(emarkers)
+BipScene(nodes, ids, mem, mo, markers, emarkers, lines) ==
+  LET drawn == {k \in DOMAIN ids : BipOrd(mem[k]) <= BipMax(mem, mo)}
+      inc == UNION {{<<n, ids[k]>> : n \in Range(mem[k])} : k \in drawn}
+  IN /\ BipMarkersOK(nodes, ids, LAMBDA k : Range(mem[k]), markers, emarkers)
+     /\ NoDup(lines) /\ Range(lines) = inc
+\* directed: order of an edge = |tail \cup head| - 1; arrow <<0, n, e>> from tail member n to the marker
+\* of e, arrow <<1, n, e>> from the marker of e to head member n
+DiBipScene(nodes, ids, tails, heads, mo, markers, emarkers, arrows) ==
+  LET all(k) == Range(tails[k]) \cup Range(heads[k])
+      ord(k) == Cardinality(all(k)) - 1
+      mx == IF mo = None THEN MaxOf({ord(k) : k \in DOMAIN ids} \cup {0}) ELSE mo
+      drawn == {k \in DOMAIN ids : ord(k) <= mx}
+      exp == UNION {{<<0, n, ids[k]>> : n \in Range(tails[k])} \cup {<<1, n, ids[k]>> : n \in Range(heads[k])} : k \in drawn}
+  IN /\ BipMarkersOK(nodes, ids, all, markers, emarkers)
+     /\ NoDup(arrows) /\ Range(arrows) = exp
 =============================================================================
